@@ -30,6 +30,18 @@ CHECKS = {
         note="bounds: history length 3 (quick) / 4 (thorough) over the alphabets printed in the evidence; match_depth=False "
              "and `visible` not explored. " + TRUST,
         design="2/C18"),
+    "C06": dict(
+        category="model_checking", engine="E1",
+        technique="exhaustive enumeration of expressions (states) x every observed rewrite step (transitions), truth-table equality under every assignment as invariant; evaluator cross-validated against DuckDB",
+        text="Every boolean/integer expression with at most k constructs (k<=2 quick, k<=3 thorough) plus complete focused families "
+             "(range pairs, absorption, equality arithmetic, COALESCE comparisons, constant conditions) is simplified under every "
+             "flag / dialect / nullability configuration; each individual Simplifier rule invocation that changed its node and the "
+             "whole simplify/normalize result are compared with the input under EVERY assignment of NULL/TRUE/FALSE and "
+             "NULL/-1..4 (three-valued, NULL distinct from FALSE). normalize results are also checked for normal form by an "
+             "independent top-down check. The three-valued evaluator is validated against DuckDB in every run.",
+        note="rules are discovered by AST-scanning Simplifier._simplify and wrapped at run time (exit 2 if the seam disappears); "
+             "division, strings and dates are outside the alphabet. " + TRUST + "; DuckDB 1.5.5 validates the evaluator",
+        design="2/C06"),
     "C08": dict(
         category="model_checking", engine="E2",
         technique="explicit-state BFS over histories of public tree operations on real Expression trees, invariants checked in every state",
